@@ -94,6 +94,9 @@ func (n *Node) String() string {
 // Parse returns a node given a pretty printed representation of a Node or a BlankNode.
 func Parse(s string) (*Node, error) {
 	raw := strings.TrimSpace(s)
+	if len(raw) < 2 {
+		return nil, fmt.Errorf("node.Parse: %q is too short to be a node", s)
+	}
 	switch raw[0] {
 	case slash:
 		idx := strings.Index(raw, "<")
